@@ -94,7 +94,7 @@ def is_signal(exc):
 class Record:
     """What one simulated run produced."""
     __slots__ = ("case", "trace", "acts", "sched", "outcome", "kernel_violations", "fired",
-                 "final_status",
+                 "final_status", "monitor_violations", "notes",
                  "unraisable", "ticks", "n_act", "end_time", "start_time", "time_steps",
                  "world", "raised")
 
@@ -125,7 +125,8 @@ class World:
         self.ops = {name[3:]: getattr(self, name) for name in dir(self)
                     if name.startswith("op_")}
         self.raised = {}       # serial -> (class name, actor)
-        self.pending_faults = {}   # actor -> list of fault kinds injected, not yet observed
+        self.monitor_violations = []   # (rule, message) found by property monitors
+        self.notes = {}            # free-form data collected by property monitors
         self.faulted = {}      # actor -> list of (tick, kind)
 
     # ---- logging ---------------------------------------------------------------------
@@ -527,24 +528,24 @@ class World:
 
     # -- resources
     async def op_borrow(self, a, op):
-        name = op["on"]
-        supply = self.res[name] if not op.get("nested") else self.res.get(op["nested"])
+        name = op.get("nested") or op["on"]
+        supply = self.res[name]
         amounts = dict(op["amounts"])
         ident = op.get("id")
         mode = op.get("mode", "borrow")
-        self.log(a, mode + ".req", name, ident, amounts)
         entered = False
         try:
             ctx = supply.borrow(**amounts) if mode == "borrow" else supply.claim(**amounts)
+            self.log(a, mode + ".req", name, ident, amounts, dict(supply.levels))
             async with ctx as share:
                 entered = True
-                self.log(a, mode + ".enter", name, ident, amounts)
                 if op.get("share"):
                     self.res[op["share"]] = share
+                self.log(a, mode + ".enter", name, ident, amounts, op.get("share"))
                 try:
                     await self.run_ops(a, op.get("body", ()))
                 finally:
-                    self.log(a, mode + ".leave", name, ident, amounts)
+                    self.log(a, mode + ".leave", name, ident, amounts, op.get("share"))
             self.log(a, mode + ".done", name, ident, amounts)
         except ResourcesUnavailable:
             self.log(a, mode + ".unavailable", name, ident, amounts)
@@ -558,14 +559,17 @@ class World:
         supply = self.res[name]
         how = op["how"]
         amounts = dict(op["amounts"])
-        if how == "decrease":
-            levels = dict(supply.levels)
-            if any(levels[key] < amounts[key] for key in amounts):
-                self.log(a, "adjust.skip", name, how, amounts)
-                await instant
-                return
-        self.log(a, "adjust+", name, how, amounts)
-        await getattr(supply, how)(**amounts)
+        before = dict(supply.levels)
+        if how == "decrease" and any(before[key] < amounts[key] for key in amounts):
+            self.log(a, "adjust.skip", name, how, amounts)
+            await instant
+            return
+        self.log(a, "adjust+", name, how, amounts, before)
+        try:
+            await getattr(supply, how)(**amounts)
+        except BaseException as err:
+            self.log(a, "adjust!", name, how, amounts, self.meta(err))
+            raise
         self.log(a, "adjust-", name, how, amounts)
 
     async def op_levels(self, a, op):
@@ -763,9 +767,14 @@ def _unraisable_collector(store):
     return hook
 
 
-def execute(case, record_kernel=True):
-    """Run one case against the real usim; returns a Record."""
+def execute(case, record_kernel=True, setup=None):
+    """Run one case against the real usim; returns a Record.
+
+    ``setup(world)`` may attach monitors to ``world.seam`` before the run starts.
+    """
     world = World(case, record_kernel=record_kernel)
+    if setup is not None:
+        setup(world)
     scenario = case["scenario"]
     config = case.get("config") or {}
     record = Record()
@@ -818,6 +827,8 @@ def execute(case, record_kernel=True):
     record.end_time = seam.max_time if seam.max_time > -math.inf else start
     record.world = world
     record.unraisable = unraisable
+    record.monitor_violations = world.monitor_violations
+    record.notes = world.notes
     record.final_status = {}
     for name, task in world.tasks.items():
         try:
